@@ -3,6 +3,10 @@
    real writer produced them) and, per block, (compressed bytes, plaintext decoded by the
    brotli crate directly); `dec` is the lookup in that table.  Everything else — footer
    parsing, size table, positions, state machine — is the model's. *)
+From MLA Require Import Limit.
+From MLAGen Require Src.
+(* executable entry points: the production value of BINCODE_MAX_DESERIALIZE (the same in both flavours), file-local *)
+#[local] Instance RUN_LIMIT : Limit := MLAGen.Src.BINCODE_MAX_DESERIALIZE_prod.
 From MLA Require Import Base Stream EncLayer CompLayer RawLayer Inst Run.
 From MLAGen Require Src.
 Open Scope N_scope.
